@@ -4,7 +4,7 @@ from . import checks, tlc, build, gen, explore
 
 BEHAVIOURAL = {
     "C01": "model_checking", "C02": "model_checking", "C03": "model_checking", "C04": "model_checking",
-    "C05": "model_checking", "C06": "model_checking", "C09": "model_checking", "C13": "model_checking",
+    "C05": "model_checking", "C06": "model_checking", "C07": "model_checking", "C09": "model_checking", "C13": "model_checking",
     "C14": "model_checking", "C16": "model_checking", "C08": "model_checking",
     "C10": "exploration", "C11": "exploration", "C12": "model_checking",
 }
